@@ -1,6 +1,7 @@
 package rules
 
 import (
+	"sort"
 	"fmt"
 	"go/token"
 	"go/types"
@@ -41,13 +42,12 @@ func runC05(c *Ctx) {
 	awaitAsync := P.Func("core/engine", "instancePool", "awaitRunAsync")
 	awaitRun := P.Func("core/engine", "runAwaitHandle", "awaitRun")
 	onErr := P.Func("core/engine", "runAwaitHandle", "onErrAwaited")
-	checkAll := P.Func("core/engine", "runAwaitHandle", "checkAllInstancesAreFinished")
 	runAsync := P.Func("core/engine", "instancePool", "runAsync")
 	startInst := P.Func("core/engine", "instancePool", "startInstances")
 	instRun := P.Func("core/engine", "instance", "Run")
 	instClose := P.Func("core/engine", "instance", "Close")
 	for name, f := range map[string]*ssa.Function{"instancePool.Run": poolRun, "Engine.Run": engRun, "instancePool.awaitRunAsync": awaitAsync,
-		"runAwaitHandle.awaitRun": awaitRun, "runAwaitHandle.onErrAwaited": onErr, "runAwaitHandle.checkAllInstancesAreFinished": checkAll,
+		"runAwaitHandle.awaitRun": awaitRun, "runAwaitHandle.onErrAwaited": onErr,
 		"instancePool.runAsync": runAsync, "instancePool.startInstances": startInst, "instance.Run": instRun, "instance.Close": instClose} {
 		if f == nil {
 			c.Anchor("O5.1", "core/engine."+name)
@@ -115,6 +115,15 @@ func runC05(c *Ctx) {
 						}
 						if isOnWaitDone(in) {
 							doneI = in
+						} else if cc := CC(in); cc != nil && cc.StaticCallee() != nil && PkgOf(cc.StaticCallee()) == PkgOf(df) {
+							// a helper that makes the call (notifyWaitDone)
+							for _, f := range FindFuncs(cc.StaticCallee(), 2, func(*ssa.Function) bool { return true }) {
+								EachInstr(f, func(i2 ssa.Instruction) {
+									if isOnWaitDone(i2) {
+										doneI = in
+									}
+								})
+							}
 						}
 					})
 					cl := PathQuery{Fn: df, Weight: func(in ssa.Instruction) (int, int) {
@@ -180,12 +189,16 @@ func runC05(c *Ctx) {
 					if !ok {
 						return
 					}
-					mc, ok := gi.Call.Value.(*ssa.MakeClosure)
-					if !ok {
-						c.Unknown("O5.2", fk(g)+":go-target", gi.Pos(), "goroutine body is not a closure")
+					var body *ssa.Function
+					if mc, ok := gi.Call.Value.(*ssa.MakeClosure); ok {
+						body = mc.Fn.(*ssa.Function)
+					} else if sc := gi.Call.StaticCallee(); sc != nil && len(sc.Blocks) > 0 {
+						body = sc // go p.method(...)
+					}
+					if body == nil {
+						c.Unknown("O5.2", fk(g)+":go-target", gi.Pos(), "goroutine body is neither a closure nor a function of this program")
 						return
 					}
-					body := mc.Fn.(*ssa.Function)
 					n++
 					iv := PathQuery{Fn: body, Weight: func(in ssa.Instruction) (int, int) {
 						switch x := in.(type) {
@@ -243,9 +256,24 @@ func runC05(c *Ctx) {
 		k, isC := ConstInt(b.Y)
 		return isC && k == 1 && IsFieldLoad(b.X, "runAwaitHandle", "toWait")
 	}
+	// the decrement that stands for "all instance runs awaited" lives next to close(runRes); the per-case rules do not count it
+	closesRunRes := func(f *ssa.Function) bool {
+		found := false
+		EachInstr(f, func(in ssa.Instruction) {
+			if IsBuiltinCall(in, "close") && DerivesOnly(CC(in).Args[0], false, IsFieldLoadPred("", "runRes")) {
+				found = true
+			}
+		})
+		return found
+	}
+	isCaseToWaitDec := func(in ssa.Instruction) bool { return isToWaitDec(in) && !closesRunRes(in.Parent()) }
+	afAll := findAllFinished(c, "O5.3")
 	isCheckAll := func(in ssa.Instruction) bool {
+		if _, isGo := in.(*ssa.Go); isGo {
+			return false
+		}
 		cc := CC(in)
-		return cc != nil && cc.StaticCallee() == checkAll
+		return cc != nil && afAll != nil && cc.StaticCallee() != nil && afAll.reaches(cc.StaticCallee())
 	}
 	isOnErr := func(in ssa.Instruction) bool {
 		cc := CC(in)
@@ -287,7 +315,7 @@ func runC05(c *Ctx) {
 				v, ok := StoreToField(in, "", name)
 				return ok && IsNilConst(v)
 			})
-			dec := count(cs.Body, nil, isToWaitDec)
+			dec := count(cs.Body, nil, isCaseToWaitDec)
 			c.Check(nilStore.Is(1, 1), "O5.3", key+":channel-nil-ed-once", cs.State.Pos, fmt.Sprintf("stores of nil to %s per iteration = %v (want [1,1])", name, nilStore))
 			c.Check(dec.Is(1, 1), "O5.3", key+":toWait-decremented-once", cs.State.Pos, fmt.Sprintf("toWait-- per iteration = %v (want [1,1])", dec))
 		} else {
@@ -304,7 +332,7 @@ func runC05(c *Ctx) {
 				return isC && k == 1 && IsFieldLoad(b.X, "runAwaitHandle", "awaitedInstances")
 			})
 			c.Check(inc.Is(1, 1), "O5.3", key+":awaitedInstances-incremented-once", cs.State.Pos, fmt.Sprintf("awaitedInstances++ per iteration = %v (want [1,1])", inc))
-			dec := count(cs.Body, nil, isToWaitDec)
+			dec := count(cs.Body, nil, isCaseToWaitDec)
 			c.Check(dec.Is(0, 0), "O5.3", key+":toWait-not-decremented-per-instance", cs.State.Pos, fmt.Sprintf("toWait-- in the per-instance case = %v (want [0,0]; only checkAllInstancesAreFinished may)", dec))
 		}
 		if name == "startRes" || name == "runRes" {
@@ -319,17 +347,49 @@ func runC05(c *Ctx) {
 			c.Check(st.Is(1, 1), "O5.3", key+":started-count-recorded", cs.State.Pos, fmt.Sprintf("startedInstances = res.Started stores = %v (want [1,1])", st))
 		}
 		// ---- O5.4: forwarding
+		// the case = the instructions of awaitRun its body dominates, and the helpers called from there
+		caseFns := map[*ssa.Function]bool{}
+		EachInstr(awaitRun, func(in ssa.Instruction) {
+			if cs.Body.Dominates(in.Block()) {
+				if cc := CC(in); cc != nil && cc.StaticCallee() != nil && PkgOf(cc.StaticCallee()) == PkgOf(awaitRun) {
+					for _, f := range FindFuncs(cc.StaticCallee(), 2, func(*ssa.Function) bool { return true }) {
+						caseFns[f] = true
+					}
+				}
+			}
+		})
+		inCase := func(in ssa.Instruction) bool {
+			if in.Parent() == awaitRun {
+				return cs.Body.Dominates(in.Block())
+			}
+			return caseFns[in.Parent()]
+		}
+		eachCaseInstr := func(f func(ssa.Instruction)) {
+			EachInstr(awaitRun, func(in ssa.Instruction) {
+				if inCase(in) {
+					f(in)
+				}
+			})
+			var fs []*ssa.Function
+			for g := range caseFns {
+				fs = append(fs, g)
+			}
+			sort.Slice(fs, func(i, j int) bool { return fs[i].String() < fs[j].String() })
+			for _, g := range fs {
+				EachInstr(g, f)
+			}
+		}
 		isCtxErrCall := func(v ssa.Value) bool {
 			cl, _ := CallOfValue(v)
 			if cl == nil || !MatchCC(&cl.Call, sIsCtxError) {
 				return false
 			}
-			return cl.Block().Parent() == awaitRun && cs.Body.Dominates(cl.Block())
+			return inCase(cl)
 		}
 		// the IsCtxError call in this case
 		var ctxCalls []*ssa.Call
-		EachInstr(awaitRun, func(in ssa.Instruction) {
-			if cl, ok := in.(*ssa.Call); ok && MatchCC(&cl.Call, sIsCtxError) && cs.Body.Dominates(cl.Block()) {
+		eachCaseInstr(func(in ssa.Instruction) {
+			if cl, ok := in.(*ssa.Call); ok && MatchCC(&cl.Call, sIsCtxError) {
 				ctxCalls = append(ctxCalls, cl)
 			}
 		})
@@ -373,8 +433,8 @@ func runC05(c *Ctx) {
 			fmt.Sprintf("onErrAwaited() calls on the path where the error is not a context error = %v (want [1,1])", fw))
 		nf := count(cs.Body, AndEdges(edgeCtx, extra), isOnErr)
 		c.Check(nf.Is(0, 0), "O5.4", key+":context-error-not-forwarded", cs.State.Pos, fmt.Sprintf("onErrAwaited() calls on the context-error path = %v (want [0,0])", nf))
-		EachInstr(awaitRun, func(in ssa.Instruction) {
-			if isOnErr(in) && cs.Body.Dominates(in.Block()) {
+		eachCaseInstr(func(in ssa.Instruction) {
+			if isOnErr(in) {
 				c.Check(ErrDerives(CC(in).Args[1], recvPred), "O5.4", key+":forwarded-error-carries-cause", in.Pos(), "the error handed to onErrAwaited must wrap the received error")
 			}
 		})
@@ -401,108 +461,59 @@ func runC05(c *Ctx) {
 			c.Check(ok, "O5.3", fk(nh)+":toWait-initial-4", nh.Pos(), "toWait starts at 4 = provider + aggregator + instance start + all instance runs")
 		}
 	}
-	// checkAllInstancesAreFinished
-	{
-		key := fk(checkAll)
+	// the all-instances-finished action (wherever it lives: checkAllInstancesAreFinished today)
+	if af := findAllFinished(c, "O5.3"); af != nil {
+		key := fk(af.fn)
 		isStartFin := IsCallValue(-1, Spec{"./core/engine", "runAwaitHandle", "isStartFinished"})
-		var cancelCalls, closes []ssa.Instruction
-		EachInstr(checkAll, func(in ssa.Instruction) {
-			if cc := CC(in); cc != nil && IsFieldCall(cc, "", "runCancel") {
-				cancelCalls = append(cancelCalls, in)
+		facts := BoolFactsAt(af.close)
+		okStart := HasBoolFact(facts, isStartFin, true)
+		okCount := false
+		for _, f := range CmpFactsAt(af.close) {
+			if f.Op == token.EQL && (IsFieldLoad(f.X, "runAwaitHandle", "startRes") && IsNilConst(f.Y) || IsFieldLoad(f.Y, "runAwaitHandle", "startRes") && IsNilConst(f.X)) {
+				okStart = true
 			}
-			if IsBuiltinCall(in, "close") && DerivesOnly(CC(in).Args[0], false, IsFieldLoadPred("", "runRes")) {
-				closes = append(closes, in)
+			f = f.Canon() // X <|<= Y
+			// started <= awaited  (awaited >= started)
+			if (f.Op == token.LEQ || f.Op == token.EQL) && IsFieldLoad(f.X, "runAwaitHandle", "startedInstances") && IsFieldLoad(f.Y, "runAwaitHandle", "awaitedInstances") {
+				okCount = true
 			}
-		})
-		ok := len(cancelCalls) == 1
-		if ok {
-			facts := BoolFactsAt(cancelCalls[0])
-			okStart := HasBoolFact(facts, isStartFin, true)
-			okCount := false
-			for _, f := range CmpFactsAt(cancelCalls[0]) {
-				f = f.Canon() // X <|<= Y
-				// started <= awaited  (awaited >= started)
-				if (f.Op == token.LEQ || f.Op == token.EQL) && IsFieldLoad(f.X, "runAwaitHandle", "startedInstances") && IsFieldLoad(f.Y, "runAwaitHandle", "awaitedInstances") {
-					okCount = true
-				}
-				if f.Op == token.EQL && IsFieldLoad(f.Y, "runAwaitHandle", "startedInstances") && IsFieldLoad(f.X, "runAwaitHandle", "awaitedInstances") {
-					okCount = true
-				}
-			}
-			c.Check(okStart && okCount, "O5.3", key+":cancel-only-when-all-finished", cancelCalls[0].Pos(),
-				fmt.Sprintf("runCancel() must be dominated by isStartFinished() (%v) and awaitedInstances >= startedInstances (%v)", okStart, okCount))
-		} else {
-			c.Bad("O5.3", key+":cancel-only-when-all-finished", checkAll.Pos(), fmt.Sprintf("%d runCancel() calls (want 1)", len(cancelCalls)))
-		}
-		if ok {
-			// on the all-finished path: one decrement, one nil store, one close, one cancel
-			start := cancelCalls[0]
-			_ = start
-			edge := RestrictBool(func(v ssa.Value) bool {
-				// the allFinished condition: any condition whose true polarity dominates the cancel
-				for _, f := range BoolFactsAt(cancelCalls[0]) {
-					if f.Subj == v {
-						return true
-					}
-				}
-				return false
-			}, true)
-			// polarity per subject differs; use explicit filter instead
-			edge = func(from, to *ssa.BasicBlock) bool {
-				iff, ok := from.Instrs[len(from.Instrs)-1].(*ssa.If)
-				if !ok || len(from.Succs) != 2 {
-					return true
-				}
-				subj, pol := BoolSubject(iff.Cond)
-				for _, f := range BoolFactsAt(cancelCalls[0]) {
-					if f.Subj == subj {
-						if (f.Val == pol) == (to == from.Succs[0]) {
-							return true
-						}
-						return false
-					}
-				}
-				return true
-			}
-			cnt := func(pred func(ssa.Instruction) bool, e func(a, b *ssa.BasicBlock) bool) Interval {
-				return PathQuery{Fn: checkAll, Edge: e, Exit: func(b *ssa.BasicBlock) bool { return ExitOf(b) == ExitReturn }, Weight: func(in ssa.Instruction) (int, int) {
-					if pred(in) {
-						return 1, 1
-					}
-					return 0, 0
-				}}.Count()
-			}
-			isNilRunRes := func(in ssa.Instruction) bool {
-				v, ok := StoreToField(in, "", "runRes")
-				return ok && IsNilConst(v)
-			}
-			isCancel := func(in ssa.Instruction) bool { return in == cancelCalls[0] }
-			isClose := func(in ssa.Instruction) bool { return len(closes) == 1 && in == closes[0] }
-			for name, pred := range map[string]func(ssa.Instruction) bool{"toWait--": isToWaitDec, "runRes=nil": isNilRunRes, "runCancel()": isCancel, "close(runRes)": isClose} {
-				iv := cnt(pred, edge)
-				c.Check(iv.Is(1, 1), "O5.3", key+":all-finished-path:"+name, checkAll.Pos(), fmt.Sprintf("%s on the all-finished path = %v (want [1,1])", name, iv))
-			}
-			// not-finished paths do nothing: total over all paths has min 0
-			for name, pred := range map[string]func(ssa.Instruction) bool{"toWait--": isToWaitDec, "runCancel()": isCancel} {
-				iv := cnt(pred, nil)
-				c.Check(iv.Min == 0 && iv.Max == 1, "O5.3", key+":not-finished-path:"+name, checkAll.Pos(), fmt.Sprintf("%s over all paths = %v (want [0,1])", name, iv))
+			if f.Op == token.EQL && IsFieldLoad(f.Y, "runAwaitHandle", "startedInstances") && IsFieldLoad(f.X, "runAwaitHandle", "awaitedInstances") {
+				okCount = true
 			}
 		}
-		// who may call runCancel / close runRes
-		sp := P.SSAPkg("core/engine")
-		for _, g := range PkgFuncs(sp) {
+		c.Check(okStart && okCount, "O5.3", key+":cancel-only-when-all-finished", af.close.Pos(),
+			fmt.Sprintf("close(runRes) and what follows must be guarded by isStartFinished() (%v) and awaitedInstances >= startedInstances (%v)", okStart, okCount))
+		isNilRunRes := func(in ssa.Instruction) bool {
+			v, ok := StoreToField(in, "", "runRes")
+			return ok && IsNilConst(v)
+		}
+		isCancel := func(in ssa.Instruction) bool {
+			cc := CC(in)
+			return cc != nil && IsFieldCall(cc, "", "runCancel")
+		}
+		// after the close: one decrement, one nil store, one cancel
+		for _, ev := range []struct {
+			name string
+			pred func(ssa.Instruction) bool
+		}{{"toWait--", isToWaitDec}, {"runRes=nil", isNilRunRes}, {"runCancel()", isCancel}} {
+			iv := af.countAfter(ev.pred)
+			c.Check(iv.Is(1, 1), "O5.3", key+":all-finished-path:"+ev.name, af.close.Pos(), fmt.Sprintf("%s on the paths after close(runRes) = %v (want [1,1])", ev.name, iv))
+		}
+		// ... and nowhere else: every runCancel() of the package, and every toWait-- of the closing function, runs after the close
+		for _, g := range PkgFuncs(af.pkg) {
+			if !IsProdFile(P.File(g.Pos())) {
+				continue
+			}
 			EachInstr(g, func(in ssa.Instruction) {
-				if cc := CC(in); cc != nil && IsFieldCall(cc, "", "runCancel") && g != checkAll {
-					c.Bad("O5.3", fk(g)+":runCancel-caller", in.Pos(), "runCancel may only be called by checkAllInstancesAreFinished (provider and aggregator are cancelled only after all instances were awaited)")
+				if isCancel(in) && !af.after(in) {
+					c.Bad("O5.3", fk(g)+":runCancel-caller", in.Pos(), "runCancel may only be called after close(runRes) in the all-instances-finished action (provider and aggregator are cancelled only after all instances were awaited)")
 				}
-				if IsBuiltinCall(in, "close") && g != checkAll {
-					if DerivesAny(CC(in).Args[0], false, IsFieldLoadPred("", "runRes")) {
-						c.Bad("O5.3", fk(g)+":runRes-closer", in.Pos(), "runRes may only be closed by checkAllInstancesAreFinished")
-					}
+				if isToWaitDec(in) && g == af.fn && !af.after(in) {
+					c.Bad("O5.3", fk(g)+":not-finished-path:toWait--", in.Pos(), "the all-instances decrement of toWait must come after close(runRes)")
 				}
 			})
 		}
-		c.OK("O5.3", "core/engine:who-may-call-runCancel", checkAll.Pos(), fmt.Sprintf("scanned %d functions of core/engine", len(PkgFuncs(sp))))
+		c.OK("O5.3", "core/engine:who-may-call-runCancel", af.close.Pos(), fmt.Sprintf("scanned %d functions of core/engine", len(PkgFuncs(af.pkg))))
 		// runCancel field is the cancel of the runCtx created in runAsync, and nothing else cancels it
 		c05CancelWiring(c, runAsync)
 	}
